@@ -103,7 +103,9 @@ Section P.
     unfold occurrences_everywhere in Hin. apply in_flat_map in Hin as ([j' c] & Hjc & Hi).
     apply in_map_iff in Hi as (i' & E & Hi). cbn [fst snd] in *. inversion E; subst j' i'. clear E.
     unfold edits_in in Hi. apply in_map_iff in Hi as (t & _ & Ht). apply filter_In in Ht as [_ Ht].
-    apply andb_prop in Ht as [_ Hs]. apply same_key_GVar in Hs.
+    cbv beta in Ht. repeat match type of Ht with (if ?b then _ else _) = true => destruct b; [|discriminate] end.
+    rename Ht into Hs.
+    apply same_key_GVar in Hs.
     pose proof (gkey_shape j c t) as S. rewrite Hs in S. cbn in S.
     destruct S as [->|E]; [now exists (BScope P), y | inversion E; contradiction].
   Qed.
@@ -131,7 +133,9 @@ Section P.
     exfalso.
     assert (Hi : In i (edits_in bi init call cx cmp (GVar m b y) x j c)) by (rewrite E; now left).
     unfold edits_in in Hi. apply in_map_iff in Hi as (t & _ & Ht). apply filter_In in Ht as [_ Ht].
-    apply andb_prop in Ht as [_ Hs]. apply same_key_GVar in Hs.
+    cbv beta in Ht. repeat match type of Ht with (if ?b then _ else _) = true => destruct b; [|discriminate] end.
+    rename Ht into Hs.
+    apply same_key_GVar in Hs.
     pose proof (gkey_shape j c t) as S. rewrite Hs in S. cbn in S.
     destruct (local_not_module_level _ HR HL) as (m' & P & y' & E' & HP). inversion E'; subst.
     destruct S as [->|E2]; [rewrite Nat.eqb_refl in Hne; discriminate | inversion E2; contradiction].
